@@ -5,3 +5,19 @@ add("C18", "exploration",
     "Trusts Python's json/zlib/base64; string keys, finite floats, no lone surrogates.",
     "property-based testing (Hypothesis): round-trip + independent decoder",
     "DESIGN.md section 18")
+add("C01", "exploration",
+    "Differential execution: generated dialect programs are run by an independent source interpreter and the emitted "
+    "IC10 by an independent reference machine under the same generated device environments; effect traces must agree. "
+    "Exploration (not proof) because programs x inputs x ticks is unbounded; generators cover every construct the "
+    "property names and report the measured class histogram.",
+    "Reference IC10 semantics (pv/ic10vm.py, pv/alu.py) and the dialect reading in pv/srcinterp.py are mine; structure/"
+    "enum tables are trusted here and cross-checked by C16; open findings are excluded by construction with witnesses.",
+    "property-based differential testing (Hypothesis): source interpreter vs IC10 reference machine",
+    "DESIGN.md section 1")
+add("C07", "exploration",
+    "Generated programs with terminating top-level code and emitted functions run on the reference machine with a "
+    "region monitor (hook-exported emitted-function tags): functions are entered only through calls and the machine "
+    "halts after main; plus trace agreement with the source interpreter up to there.",
+    "Region map comes from the PYTRAPIC_VERIF hook; known finding F-D1 is reported once, hits counted.",
+    "property-based testing (Hypothesis) with a region/transition invariant monitor on the reference machine",
+    "DESIGN.md section 7")
